@@ -50,7 +50,9 @@ fn plan_module(r: &mut Rng, dir: &str, k: usize) -> ModPlan {
         ref_soname = "none".to_string();
     } else {
         ref_id = built.build_id.as_ref().map(|v| if v.is_empty() { "empty".to_string() } else { hex(v) }).unwrap_or("none".into());
-        ref_soname = if spec.soname_twice { "-".to_string() } else { built.soname.as_ref().map(|v| hex(v)).unwrap_or("none".into()) };
+        // (an image without program headers says nothing about where it is linked: with a non-zero bias its
+        // section addresses cannot be related to the loaded bytes, so there is no reference answer from memory)
+        ref_soname = if spec.soname_twice || (spec.bias != 0 && !spec.has_phdrs) { "-".to_string() } else { built.soname.as_ref().map(|v| hex(v)).unwrap_or("none".into()) };
     }
     // pad to whole pages so that every layout below is backed by the file
     let pages = ((bytes.len() + PAGE - 1) / PAGE).max(1);
